@@ -47,6 +47,13 @@ pub(crate) fn open<Fd: AsFd, P: AsRef<Path>>(
         })?
     }
 
+    // Like the openat(2) wrapper, never let the opened file become our
+    // controlling terminal (openat2(2) rejects O_NOCTTY together with O_PATH).
+    let mut oflags = oflags;
+    if !oflags.contains(OpenFlags::O_PATH) {
+        oflags.insert(OpenFlags::O_NOCTTY);
+    }
+
     let rflags = libc::RESOLVE_IN_ROOT | libc::RESOLVE_NO_MAGICLINKS | rflags.bits();
     let how = OpenHow {
         flags: oflags.bits() as u64,
